@@ -3,7 +3,9 @@ import ShellOp.Model.Discovery
 /-! Line-protocol suite for C20 (hook discovery). Core-only.
 
 ```
-tree <rootName> <preorder tokens: d <name> … u | f <name> <octal mode> <ok|fail|invalid>>
+tree <rootName> <preorder tokens: d <name> … u | f <name> <octal mode> <ok|fail|invalid>[:<class>]>
+                      (a case may contain several `tree` lines: the hooks directory as it is at each
+                       start of a hook manager in the same process; each replaces the model's tree)
                       -> walk=<relative paths in the order RecursiveGetExecutablePaths returned them>
 oracle discover got=<…>       the property: got is exactly the set of hook paths (documented literals)
 init                  -> names=<GetHookNames> asked=<--config invocation log> err=<hook named by the error>
@@ -15,9 +17,13 @@ open ShellOp ShellOp.Util ShellOp.Discovery
 
 structure St where
   root : Option (Path × Tree) := none
+  proc : ProcState := procInit     -- what earlier starts of this case left behind in the process
 
-def outcome? : String → Option Outcome
-  | "ok" => some .ok | "fail" => some .fail | "invalid" => some .invalid | _ => none
+/-- `ok | fail | invalid`, optionally followed by `:<what the hook prints / does>` (the catalogue class
+of the configuration: the concrete input of the replay; the model only needs the outcome) -/
+def outcome? (s : String) : Option Outcome :=
+  match s.splitOn ":" with
+  | "ok" :: _ => some .ok | "fail" :: _ => some .fail | "invalid" :: _ => some .invalid | _ => none
 
 def octal? (s : String) : Option Nat :=
   if s.isEmpty then none else
@@ -60,13 +66,14 @@ def step (st : St) (toks : List String) : St × String :=
     match parseTree ("d" :: rn :: rest) [] with
     | some t =>
       let rp := bytesOf rn
-      ({ root := some (rp, t) }, s!"walk={showPaths rp (discover rp t)}")
+      let r := startOnce rp st.proc t
+      ({ root := some (rp, t), proc := r.1 }, s!"walk={showPaths rp r.2.1}")
     | none => (st, "bad-op")
   | ["init"] =>
     match st.root with
     | none => (st, "bad-op")
     | some (rp, t) =>
-      let r := init rp t (outcomeAt rp t)
+      let r := (startOnce rp st.proc t).2.2
       let err := match r.err with | some p => strOf (relName rp p) | none => "-"
       (st, s!"names={showStrs (r.loaded.map strOf)} asked={showPaths rp r.asked} err={err}")
   | "oracle" :: "discover" :: rest =>
